@@ -320,6 +320,19 @@ def check_tmat(sp, T, obs, A, its):
         return fails, ne
     rfin = (rhs / nrm - A @ (xres / nrm)).norm(dim=-2)[..., :q]
     usable = usable & (rfin > 2.0 * stop)
+    # completeness, per column: the matrix of a column may stop short of the rows the budget allowed only because THAT
+    # column's Lanczos recurrence has broken down (its Krylov space is exhausted) - never because of what happens in
+    # another column / batch member.  Rows the budget allowed: one per executed loop body (the loop body that breaks on the
+    # tolerance writes none), at most n_tridiag_iter = min(max_tridiag_iter, n).  The column's own couplings come from an
+    # independent dense Lanczos process with full re-orthogonalisation on Ahat = M^-1/2 A M^-1/2 started at M^-1/2 r0.
+    _, mt_eff, _ = eff_limits(sp, obs)
+    rows_allowed = min(its - (0 if obs["warn"] else 1), min(mt_eff, n))
+    ne += 1
+    if 1 <= m < rows_allowed and bool(usable.any()):
+        f = truncated_columns(sp, T, A, Minv, r0q, tq, usable, m, rows_allowed, lam_p)
+        if f is not None:
+            fails.append(f)
+            return fails, ne
     if T["x0"] is None and m >= 1 and bool(usable.any()):
         small = its > m       # rows written after the kept block do not matter
         e1 = torch.zeros(m, dtype=F64)
@@ -349,6 +362,72 @@ def check_tmat(sp, T, obs, A, its):
                 fails.append(fail(sp, "tmat-ritz", "Ritz values [%g, %g] outside the spectrum [%g, %g] of the preconditioned operator at (batch, column) %s" % (
                     float(ritz[tuple(idx)][0]), float(ritz[tuple(idx)][-1]), float(lo.reshape(-1)[0]), float(hi.reshape(-1)[0]), idx)))
     return fails, ne
+
+
+def dense_lanczos(Ah, z, steps):
+    """independent oracle: Lanczos with full re-orthogonalisation on the dense symmetric matrix Ah started at z.
+    Returns (alphas, betas): betas[i] couples rows i and i+1 (betas[steps-1] = coupling to the first row not built)."""
+    n = Ah.shape[-1]
+    q = z / z.norm()
+    Q = [q]
+    al, be = [], []
+    for i in range(steps):
+        w = Ah @ Q[i]
+        a = float(w @ Q[i])
+        al.append(a)
+        for _ in range(2):
+            for qq in Q:
+                w = w - (w @ qq) * qq
+        b = float(w.norm())
+        be.append(b)
+        if b < 1e-13 * max(1.0, abs(a)) or len(Q) >= n:
+            break
+        Q.append(w / b)
+    return al, be
+
+
+def truncated_columns(sp, T, A, Minv, r0q, tq, usable, m, rows_allowed, lam_p):
+    """a usable column whose own Lanczos couplings up to row m are all far from zero, but whose matrix has only m rows
+    although the budget allowed rows_allowed: the failing input (with the quadrature it spoils)"""
+    batch, n, c = S.full_shapes(sp)
+    q = sp["n_tridiag"]
+    B = S.prod(batch)
+    Af = A.reshape(B, n, n)
+    Mf = Minv.reshape(B, n, n)
+    r0f = r0q.reshape(B, n, q)
+    tf = tq.reshape(B, q, m, m)
+    uf = usable.reshape(B, q)
+    hi = lam_p.reshape(B, n)[:, -1]
+    for b in range(B):
+        w, v = torch.linalg.eigh(Mf[b])
+        h = (v * torch.sqrt(w.clamp_min(0)).unsqueeze(0)) @ v.T
+        Ah = h @ Af[b] @ h
+        Ah = (Ah + Ah.T) / 2
+        for j in range(q):
+            if not bool(uf[b, j]):
+                continue
+            z = h @ r0f[b, :, j]
+            al, be = dense_lanczos(Ah, z, m + 1)
+            if len(be) < m:
+                continue
+            floor = max(1e-3 * float(hi[b]), 1e-4)   # far above anything that could be called a breakdown
+            if min(be[:m]) < floor:
+                continue
+            # the quadrature this truncation spoils: e1^T T^(2m) e1 vs z^T Ahat^(2m) z
+            zz = z / z.norm()
+            e1 = torch.zeros(m, dtype=F64)
+            e1[0] = 1.0
+            tv, av = e1, zz
+            for _ in range(m):
+                tv = tf[b, j] @ tv
+                av = Ah @ av
+            mom_t, mom_a = float(tv @ tv), float(av @ av)
+            return fail(sp, "tmat-truncated",
+                        "t_mat of (batch member, column) (%d, %d) has %d rows although the budget allowed %d and this column's own Lanczos "
+                        "recurrence is far from breaking down (couplings beta_1..beta_%d >= %.3g, dense oracle): it is not the Lanczos matrix "
+                        "the call could deliver; e1^T T^%d e1 = %.12g but z^T Ahat^%d z = %.12g" % (
+                            b, j, m, rows_allowed, m, min(be[:m]), 2 * m, mom_t, 2 * m, mom_a))
+    return None
 
 
 def last_rows_regular(tq, usable):
